@@ -24,7 +24,7 @@ fn plan(tier: Tier) -> (u64, u64, u64) {
     // (blocks over the 13-token alphabet, blocks over the 18-token alphabet, random cases)
     match tier {
         Tier::Quick => (pow_sum(13, 5).div_ceil(BLOCK), pow_sum(18, 3).div_ceil(BLOCK), 30_000),
-        Tier::Thorough => (pow_sum(13, 7).div_ceil(BLOCK), pow_sum(18, 5).div_ceil(BLOCK), 2_000_000),
+        Tier::Thorough => (pow_sum(13, 8).div_ceil(BLOCK), pow_sum(18, 6).div_ceil(BLOCK), 3_000_000),
     }
 }
 
@@ -34,7 +34,7 @@ pub fn def() -> CheckDef {
         salt: 0xC05,
         level: "exploration",
         rule: "EXHAUSTIVE part: every sequence of tokens (joined by blanks) over the 13-token alphabet `p {x} true ~ EX & | => EU !{x}: @{x}: ( )` \
-               up to length 5 (quick) / 7 (thorough), and over that alphabet + `^ <=> AW 3{x} in %d%: %w%` up to length 3 / 5, in both parser \
+               up to length 5 (quick) / 8 (thorough), and over that alphabet + `^ <=> AW 3{x} in %d%: %w%` up to length 3 / 6, in both parser \
                modes. RANDOM part: grammar-derived formulae printed with randomly dropped / redundant parentheses, spellings and blanks; \
                token-level mutations; identifier shapes (EXa, AU_1, A, E_, 3x, V1, leading digits, unicode letters/digits); whitespace placements \
                inside hybrid operators; raw strings over the formula alphabet. For every string: library tokenizer vs reference lexer, library \
@@ -311,6 +311,13 @@ pub fn random_string(rng: &mut Rng) -> (String, &'static str) {
             }
             (toks.join(" "), "mutation")
         }
+        6 if rng.coin() => {
+            // a valid rendering cut off at a random character position (every prefix is a legal input)
+            let f = gen_open_formula(rng, &fopts, &props, &["x".to_string()]);
+            let text: Vec<char> = render_loose(&f, rng).chars().collect();
+            let cut = rng.below(text.len() + 1);
+            (text[..cut].iter().collect(), "truncation")
+        }
         6..=8 => {
             let n = rng.range(1, 9);
             let mut s = String::new();
@@ -332,7 +339,7 @@ pub fn random_string(rng: &mut Rng) -> (String, &'static str) {
 
 fn run(rng: &mut Rng, idx: u64, tier: Tier) -> CaseOut {
     let (blocks13, blocks18, _) = plan(tier);
-    let (len13, len18) = if tier == Tier::Quick { (5, 3) } else { (7, 5) };
+    let (len13, len18) = if tier == Tier::Quick { (5, 3) } else { (8, 6) };
     if idx < blocks13 {
         let mut out = CaseOut::new(format!("enum13-{idx}"));
         enumerate_block(&ALPHA13, idx, len13, &mut out);
